@@ -276,6 +276,8 @@ pub struct StepRec {
     pub at_mid: Vec<f64>,
     /// number of non-Jacobian ode calls made before this callback
     pub n_ode_before: u64,
+    /// entry 6 of the step's dense coefficients (BDF: the order of the step)
+    pub cont6: f64,
 }
 
 #[derive(Clone, Copy, Debug, PartialEq)]
@@ -316,10 +318,12 @@ impl<'p, 'a> ivp::solout::SolOut for ProbeSolOut<'p, 'a> {
             at_x: vec![],
             at_mid: vec![],
             n_ode_before: self.probe.st.borrow().n_ode,
+            cont6: f64::NAN,
         };
         let mut inner = vec![];
         if let Some(ip) = interp {
             rec.bounds = ip.bounds();
+            rec.cont6 = ip.to_segment().cont.get(6).copied().unwrap_or(f64::NAN);
             let mut b = vec![0.0; n];
             ip.interpolate(xold, &mut b);
             rec.at_xold = b.clone();
